@@ -103,6 +103,34 @@ Proof.
     eapply OL_snoc_if; eauto.
 Qed.
 
+(* ... and conversely: the two presentations define the same language and trees *)
+Lemma O_G :
+  (forall u p, OP u p -> G 7 u p) /\
+  (forall l u e, OB l u e -> (l <= 7)%nat -> G l u e) /\
+  (forall m k lhs us e, OL m k lhs us e ->
+     forall pre, G k pre lhs -> (m <= k)%nat -> (1 <= k)%nat -> G m (pre ++ us) e).
+Proof.
+  apply O_mutind.
+  - constructor.
+  - constructor.
+  - intros ts e _ IH. constructor. exact IH.
+  - intros ts e _ IH. constructor. apply IH. lia.
+  - intros minlvl u0 p0 us e _ IHP _ IHL Hl. apply IHL; auto. lia.
+  - intros minlvl k lhs pre HG Hmk Hk. rewrite app_nil_r. eapply G_mono; eauto.
+  - intros minlvl k lhs t l mk u b us e Hb Hl _ IHB _ IHL pre HG Hmk Hk.
+    pose proof (spec_binop_level _ _ _ Hb) as Hlv.
+    replace (pre ++ t :: u ++ us) with ((pre ++ t :: u) ++ us) by (rewrite <- app_assoc; reflexivity).
+    apply IHL; [|lia|lia].
+    eapply G_bin; eauto; [eapply G_mono; eauto; lia|apply IHB; lia].
+  - intros k lhs ua a ub b _ IHa _ IHb pre HG Hmk Hk.
+    apply G_if; [eapply G_mono; eauto|apply IHa; lia|apply IHb; lia].
+Qed.
+
+Theorem G_iff_OB l ts e : (l <= 7)%nat -> (G l ts e <-> OB l ts e).
+Proof.
+  intros Hl. split; [apply G_OB|]. intros H. destruct O_G as [_ [HB _]]. apply HB; auto.
+Qed.
+
 (* ------------------------------------------------------------------ *)
 (* the parser follows the operational grammar                           *)
 
